@@ -37,10 +37,11 @@ def spec(tier, seed):
                         two.append((3, sh, [l1, l2], f, d))
     # measured: one hunk N=3 symbolic stated line 230 s / 5 GB; two hunks N=3 stated lines from the matrix 540 s / 11 GB
     if tier == "quick":
-        ch1 = rotate(one, seed, 4)
-        ch2 = rotate([t for t in two if t[3] == 0], seed, 2)   # fuzz-1 two-hunk rollback exceeds 15 GB
+        # fuzz-1 instances with a symbolic stated line exceed 9 GB; two-hunk rollback takes 540 s: both are thorough-tier material
+        ch1 = rotate([t for t in one if t[3] == 0], seed, 4)
+        ch2 = []
     else:
-        ch1, ch2 = one, rotate([t for t in two if t[3] == 0], seed, 24)
+        ch1, ch2 = [t for t in one if t[3] == 0] + [t for t in one if t[3] == 1][:4], rotate([t for t in two if t[3] == 0], seed, 24)
     for (n, sh, ls, f, d) in ch1:
         inst.append(apply_inst("c04a", n, sh, ls, f, d, ["rollback"], "C04a modify: apply + rollback, one hunk, symbolic stated line", mem_gb=9, timeout=1800))
     for (n, sh, ls, f, d) in ch2:
